@@ -1,6 +1,7 @@
 import TrustVerif.Lemmas.C11Frame
 import TrustVerif.Lemmas.C11Validate
 import TrustVerif.Lemmas.C11Wf
+import TrustVerif.Lemmas.C11Apply
 import TrustVerif.Generated.C11OpcodeSpec
 
 /-!
@@ -176,6 +177,49 @@ theorem c11_apply_only_validated (crc : Bytes → UInt32) (rt : RtView) (bytes :
       cases hm : metadata m with
       | error e => simp [hv, hm] at h
       | ok md => exact ⟨m, md, rfl, hv, hm⟩
+
+/-! ## validated ⇒ safe to apply: the FB references of the tasks -/
+
+/-- **`array_offset_i64` neither overflows nor leaves the element vector.**  For every array value a
+runtime can hold (`ArrWf`: every dimension non-empty, `∏ (upper − lower + 1)` elements, at most
+`isize::MAX` of them) and EVERY list of `i64` indices — the container's `Index` segments are not
+bounded by `validate` — none of the `i64` / `i128` operations of the code overflows (the model
+answers `panic` when one would), and a returned offset is smaller than the number of elements. -/
+theorem c11_array_offset_in_bounds (dims : List (Int × Int)) (indices : List Int) (n : Nat)
+    (h : ArrWf dims n) :
+    arrayOffset dims indices ≠ .panic ∧ ∀ off, arrayOffset dims indices = .some off → off < n :=
+  arrayOffset_safe dims indices n h
+
+/-- **"any container that validates can be applied … without panicking": the task FB references.**
+Whatever the bytes and the resource name: applying them to a runtime whose array values are
+well-formed never overflows while `validate_task` follows the `Index` / `Field` paths of the tasks'
+FB references (`read_by_ref` → `read_by_ref_path` → `array_offset_i64`); the outcome is `Ok` or one
+of the error values.  (The model computes in ℤ and reports every operation whose result leaves the
+type the code computes it in.) -/
+theorem c11_apply_refs_no_overflow (crc : Bytes → UInt32) (rt : RtView) (hrt : rt.Wf) (bytes : Bytes)
+    (name : Option Bytes) : (applyBytes crc rt bytes name).1 ≠ some .panic :=
+  applyBytes_safe crc rt hrt bytes name
+
+/-- **The range test has to come before the subtraction.**  `i64::MIN` is a legal index value for
+`ARRAY[1..3]` and `i64::MAX` for `ARRAY[-2..2]` (both answered `None`), but `index − lower` is not an
+`i64` for them: computing the relative index first overflows. -/
+theorem c11_array_offset_guard_needed :
+    ArrWf [(1, 3)] 3 ∧ arrayOffset [(1, 3)] [i64Min] = .none ∧ inI64 i64Min = true ∧
+      inI64 (i64Min - 1) = false ∧
+    ArrWf [(-2, 2)] 5 ∧ arrayOffset [(-2, 2)] [i64Max] = .none ∧ inI64 i64Max = true ∧
+      inI64 (i64Max - (-2)) = false := by
+  refine ⟨⟨?_, by rfl, by decide⟩, by rfl, by rfl, by rfl, ⟨?_, by rfl, by decide⟩, by rfl, by rfl, by rfl⟩ <;>
+    (intro d hd; simp only [List.mem_singleton] at hd; subst hd; decide)
+
+example : RtView.Wf { programs := [], globals := [.arr [(1, 3)] [.other, .other, .inst 0]], instances := [] } :=
+  ⟨fun v hv => by
+      simp only [List.mem_singleton] at hv
+      subst hv
+      exact .arr _ _ ⟨by intro d hd; simp only [List.mem_singleton] at hd; subst hd; decide, by rfl, by decide⟩
+        (by intro e he; simp only [List.mem_cons, List.not_mem_nil, or_false] at he
+            rcases he with rfl | rfl | rfl <;> constructor),
+   fun i hi => by simp at hi⟩
+example : arrayOffset [(1, 2), (-1, 1)] [2, 0] = .some 4 := by rfl
 
 /-! ## the encoder's rollback (abstract emitter) -/
 
